@@ -27,6 +27,8 @@ THEOREMS = [NS + t for t in [
     'C20_gate_runs_iff', 'C20_gate_blocked', 'C20_gate_ok', 'consistentB_iff']] + ['Scalibr.Index.' + t for t in ['new_getSpecific', 'new_getAllOfType', 'new_getAll', 'new_has', 'new_only']]
 
 
+KF_IDXMUT = 'C20/getspecific-returns-internal-slice'
+KF_NILCOLL = 'C20/detector-run-nil-collector-panics'
 COMPARE = ['_', 'st', 'err', 'gerr', 'gcalls', 'gx', 'gn', 'calls', 'idx', 'idxsame', 'findset', 'fkeys', 'plugset', 'plugkeys', 'pk', 'mut', 'started', 'pst']
 
 # C08, clause "findings and statuses are emitted in the documented sorted order": Properties/C08Findings.lean
@@ -69,6 +71,15 @@ def details(ps, fi, fm, case=''):
             if d not in seen:
                 seen.append(d)
         out.append('advisories in this scan: ' + '; '.join(seen[:6]) + ' — scan status %s, %s finding(s) emitted' % (fi.get('st'), 0 if fi.get('findset', '-') == '-' else fi['findset'].count(',') + 1))
+    if 'index-mutable' in ps:
+        a, b = fi.get('idx', '').split(';'), fi.get('again', '').split(';')
+        diff = ['%s: first detector saw %s, last detector sees %s' % (x.split('=')[0], x.split('=')[1], y.split('=')[1]) for x, y in zip(a, b) if x != y]
+        out.append('queries that changed (A = GetAll, T<type> = GetAllOfType, S<type>:<name> = GetSpecific; package ids, 0 for an overwritten entry): ' + '; '.join(diff[:4]))
+    if 'nilarg' in ps:
+        out.append('entry point %s: %s' % ({'detrun': 'detector.Run(ctx, nil /* stats.Collector */, one detector, root, index)', 'detrun0': 'detector.Run with nil collector and no detectors',
+                                           'detroot': 'detector.Run with a nil scan root', 'scan': 'Scan with ScanConfig.Stats nil', 'scancaps': 'Scan with ScanConfig.Capabilities nil and plugins without requirements',
+                                           'fsrun': 'filesystem.Run with Config.Stats nil', 'index': 'packageindex.New(nil)', 'valadv': 'detector.ValidateAdvisories(nil)'}.get(case.split(' ')[1], case),
+                                          {'panic': 'PANICS (nil pointer dereference)', 'err': 'fails'}.get(fi.get('nres'), fi.get('nres'))))
     if 'findorder' in ps:
         out.append('emitted (reference, extra) sequence %s; documented order %s' % (', '.join(_keys(fi.get('fkeys'))), ', '.join(_keys(fm.get('sfkeys')))))
     if 'statusorder' in ps:
@@ -131,6 +142,12 @@ def problems(case, fi, fm):
     """where the IMPLEMENTATION's answer leaves the specification (computed by the Lean driver from the case)"""
     if case.startswith('phases '):
         return phase_problems(case, fi, fm)
+    if case.startswith('idxmut '):
+        if 'sagain' not in fm:
+            return []
+        return ['index-mutable'] if fi.get('again') != fm['sagain'] else (['index'] if fi.get('idx') != fm['sagain'] else [])
+    if case.startswith('nilarg '):
+        return ['nilarg'] if fi.get('nres') != fm.get('snres', 'ok') else []
     if case.startswith(('gate ', 'cscan ')) and fm.get('sgate', '-') != '-':
         # SPEC (Spec/Detector.lean Runs / specReason): a precondition of the scan is not met -> NOTHING runs (no detector, no extractor),
         # nothing is reported, the scan fails with the first unmet condition
@@ -194,6 +211,8 @@ TEXT = {
     'ph-notfailed': 'plugins of the schedule were never started, yet the scan does not report failure',
     'ph-failed': 'the scan reports failure although every iteration of the schedule ran',
     'panic': 'Scan panicked',
+    'index-mutable': 'a detector that overwrites the slices the index handed to it changes what the NEXT detector sees: the index is not the same for every detector of the scan',
+    'nilarg': 'a public entry point of the detector phase does not work with its optional argument left nil',
     'gate-ran': 'a precondition of the scan is not met (required extractor unknown / plugin requirements unmet / no scan root / specific files with several roots), yet a detector or extractor RAN',
     'gate-reason': 'a precondition of the scan is not met: the scan must fail with the FIRST unmet condition in the order enable, requirements, roots, files',
     'gate-output': 'a scan stopped by its preconditions reports findings, packages or plugin statuses',
@@ -222,7 +241,9 @@ def run(ctx):
                        'findings carried by an extractor\'s inventory (no built-in extractor emits any) are not tagged; they are validated together with the detectors\' findings (fix 89f87523)',
                        'the order of packages handed to packageindex.New is the walk order (roots, files by name, extractors by configuration order): input of this model, subject of C01/C08',
                        'Extractor.ToPURL does not panic (C14)']
-    ctx.rule = ('both tiers: cscan = 40 single-root scan cases run through ScanContainer as one-layer images (with and without a preset decoy scan root, which must be overwritten; every 5th with an image '
+    ctx.rule = ('both tiers: idxmut = 60 scan cases (>= 2 detectors) whose FIRST detector overwrites every slice GetAll / GetAllOfType / GetSpecific handed to it: the last detector must still see the '
+                'filter of the extracted packages; nilarg = 8 public entry points with the optional argument nil (detector.Run collector, scan root; ScanConfig.Stats / Capabilities; filesystem.Config.Stats; '
+                'packageindex.New(nil); ValidateAdvisories(nil)); cscan = 40 single-root scan cases run through ScanContainer as one-layer images (with and without a preset decoy scan root, which must be overwritten; every 5th with an image '
                 'without layers: nothing runs), judged by the ordinary scan oracle; gate = 12 scan cases x {a detector requires an unknown extractor | nothing required | two detectors require python/wheelegg (auto-enabled once) | they require the standalone windows/dismpatch (auto-enabled; its non-Windows build fails when run: one failed status)} x '
                 '{requirements met | a plugin needs Windows} x {no root | the case\'s roots | >= 2 roots} x {PathsToExtract unset | set}: blocked => no detector and no extractor call, nothing reported, '
                 'reason = first unmet condition; unblocked => the ordinary scan oracle (with the auto-enabled extractor\'s status and the two extra detectors); advisory fields = every leaf field and every nil-vs-set pointer of detector.Advisory / Severity / CVSS, enumerated by reflection (list in advisory_fields_enumerated): '
@@ -252,20 +273,48 @@ def run(ctx):
     def classify(case, fi, fm):
         return _classify(case, fi, fm)
 
+    def finding_class(case, fi, fm):
+        # class predicate: the first detector saw the right index, and for the last detector every answer has the same NUMBER of entries,
+        # the changed entries being overwritten ones (printed as id 0): the internal slices of GetSpecific were wiped, nothing else
+        if case.startswith('idxmut ') and fi.get('idx') == fm.get('idx') and fi.get('again') != fm.get('sagain'):
+            a, b = fi.get('idx', '').split(';'), fi.get('again', '').split(';')
+
+            def wiped(x, y):
+                kx, vx = x.split('=', 1)
+                ky, vy = y.split('=', 1)
+                ix, iy = vx.split('.'), vy.split('.')
+                return kx == ky and len(ix) == len(iy) and all(p == q or q == '0' for p, q in zip(ix, iy))
+            if len(a) == len(b) and all(wiped(x, y) for x, y in zip(a, b)):
+                return KF_IDXMUT
+        # class predicate: detector.Run itself, nil collector, at least one detector: panic
+        if case == 'nilarg detrun' and fi.get('nres') == 'panic':
+            return KF_NILCOLL
+        return None
+
 
     lib.standard_stream(ctx, gen='c20gen', driver='drv_c20', gen_args=['-seed', str(ctx.seed), '-n', str(n), '-tier', ctx.tier],
-                        compare_keys=COMPARE, nontrivial=nontrivial, oracle=oracle, classify=classify, sample_every=1999)
+                        compare_keys=COMPARE, nontrivial=nontrivial, oracle=oracle, classify=classify, finding_class=finding_class, sample_every=1999)
+    if not ctx.replay:
+        for kf in (KF_IDXMUT, KF_NILCOLL):
+            if kf in ctx.known and kf not in ctx.known_hits:
+                ctx.violation('known finding %s no longer reproduces: update known_findings.txt' % kf, ['# ' + kf], found_input=False, name='stale-' + kf.replace('/', '-'))
     if not proofs_ok:
         lib.proof_failed(ctx, 'Scalibr.Properties.C20')
 
 
 def _nontrivial(case, fi, fm):
+    if case.startswith(('idxmut ', 'nilarg ')):
+        return True
     if case.startswith('phases '):
         return fm.get('sall', '-') != '-' and fm.get('sstarted') != fm.get('sall')      # a cancellation that left work out
     return fm.get('scalls', '-') != '-' and (fi.get('find', '-') != '-' or fi.get('st') == 'failed')
 
 
 def _classify(case, fi, fm):
+    if case.startswith('idxmut '):
+        return 'idxmut ' + ('same' if fi.get('again') == fi.get('idx') else 'CHANGED')
+    if case.startswith('nilarg '):
+        return 'nilarg ' + str(fi.get('nres'))
     if case.startswith('phases '):
         return 'phases st=%s workleft=%s' % (fi.get('st', fi.get('_')), fm.get('sworkleft'))
     return 'st=%s err=%s nocancel=%s consistent=%s exfindings=%s' % (fi.get('st', fi.get('_')), fi.get('err'), fm.get('wf'), fm.get('cons'), fm.get('exf'))
